@@ -791,15 +791,19 @@ class DistGeometric(DistDiscrete):
         ------
         TypeError: when stream is not implementing StreamInterface
         TypeError: when p is not a float
-        ValueError: when p < 0 or p > 1
+        ValueError: when p <= 0 or p > 1
         """
         super().__init__(stream)
         if not isinstance(p, float):
             raise TypeError(f"parameter p {p} is not a float")
-        if not 0 <= p <= 1:
-            raise ValueError(f"parameter p {p} not between 0 and 1")
+        if not 0 < p <= 1:
+            raise ValueError(f"parameter p {p} not larger than 0 and at most 1")
         self._p = p
-        self._lnp = math.log(1.0 - self._p)
+        # ln(1-p); for p = 1 (success at every trial) the limit -inf is used
+        if p < 1.0:
+            self._lnp = math.log(1.0 - self._p)
+        else:
+            self._lnp = -math.inf
         
     def draw(self) -> int:
         """
@@ -867,14 +871,18 @@ class DistNegBinomial(DistDiscrete):
             raise TypeError(f"parameter p {p} is not a float")
         if not isinstance(s, int):
             raise TypeError(f"parameter s {s} is not an int")
-        if not 0 <= p <= 1:
-            raise ValueError(f"parameter p {p} not between 0 and 1")
+        if not 0 < p <= 1:
+            raise ValueError(f"parameter p {p} not larger than 0 and at most 1")
         if s <= 0:
             raise ValueError(f"parameter s {s} <= 0")
         self._p = p
         self._s = s
-        # helper variable equal to ln(1-p) to avoid repetitive calculation.
-        self._lnp = math.log(1.0 - self._p)
+        # helper variable equal to ln(1-p) to avoid repetitive calculation;
+        # for p = 1 (success at every trial) the limit -inf is used
+        if p < 1.0:
+            self._lnp = math.log(1.0 - self._p)
+        else:
+            self._lnp = -math.inf
         
     def draw(self) -> int:
         """
